@@ -123,7 +123,9 @@ type outcome struct {
 	classes []string
 }
 
-func (o *outcome) class(format string, a ...any) { o.classes = append(o.classes, fmt.Sprintf(format, a...)) }
+func (o *outcome) class(format string, a ...any) {
+	o.classes = append(o.classes, fmt.Sprintf(format, a...))
+}
 
 // ---------------------------------------------------------------------------
 // fixtures
@@ -399,7 +401,7 @@ func genChannel(t *rapid.T, kind string) caseT {
 
 	// size of the chunks each sender may produce
 	gopcuaMax := refcodec.SymMaxBody(pol, c.mode(), int(c.SendBuf))
-	refMax := refcodec.SymMaxBody(pol, c.mode(), int(c.RecvBuf)) // what the gopcua receiver accepts
+	refMax := refMaxBody(pol, c, int(c.RecvBuf)) // what the gopcua receiver accepts
 	n := rapid.IntRange(1, 3).Draw(t, "msgs")
 	for i := 0; i < n; i++ {
 		var m msgT
@@ -438,6 +440,40 @@ func sizeClass(body, maxBody int) string {
 		return "small"
 	}
 	return "mid"
+}
+
+// channelClasses records the configuration classes of a channel case.
+func channelClasses(o *outcome, tag string, pol *refcodec.Policy, c caseT) {
+	o.class("%s/%s/%s", tag, pol.Name, c.modeName())
+	o.class("%s/keys=c%d/s%d", tag, c.ClientBits, c.ServerBits)
+	o.class("%s/%s/%s/c%d/s%d", tag, pol.Name, c.modeName(), c.ClientBits, c.ServerBits)
+	if c.ClientChain || c.ServerChain {
+		o.class("%s/cert-chain", tag)
+	}
+	if c.FullPad {
+		o.class("%s/ref-pads-full-block-when-aligned", tag)
+	}
+	buf := func(n uint32) string {
+		switch {
+		case n == 8192:
+			return "8192"
+		case n < 8192+64:
+			return "8193..8255"
+		case n < 65535-40:
+			return "8256..65494"
+		case n < 65535:
+			return "65495..65534"
+		case n == 65535:
+			return "65535"
+		case n <= 65535+40:
+			return "65536..65575"
+		}
+		return ">65575"
+	}
+	o.class("%s/gopcua-chunk-size=%s", tag, buf(c.SendBuf))
+	if tag != "d1" {
+		o.class("%s/ref-chunk-size=%s", tag, buf(c.RecvBuf))
+	}
 }
 
 // checkOPN applies the checks that go beyond ParseAsymChunk's own.
@@ -554,8 +590,18 @@ func TestKeyedChunks(t *testing.T) {
 	rec.Assume("oracle = verif/pkg/refcodec (Part 6 layout, RFC 5246 P_hash, Go stdlib crypto); self-tested by TestReference against the TLS 1.2 P_SHA256 vector, the P_SHA1 vector of uapolicy/securitypolicy_test.go and by build/parse/tamper round trips")
 	rapid.Check(t, func(t *rapid.T) {
 		c := genKeyed(t)
-		judge(t, "TestKeyedChunks", c, runKeyed(c))
+		judge(t, "TestKeyedChunks", c, journaled("TestKeyedChunks", c, runKeyed))
 	})
+}
+
+// journaled runs the case with a journal entry around it, so that a crash of
+// the process inside gopcua (a panic on a goroutine the harness does not own)
+// names the case.
+func journaled(test string, c caseT, f func(caseT) outcome) outcome {
+	rec.Journal(test, c)
+	o := f(c)
+	rec.JournalDone(test)
+	return o
 }
 
 // judge records the case and fails on a violation.
@@ -644,11 +690,7 @@ func runWire(c caseT) (o outcome) {
 // conversation with the reference.
 func verifyCapture(o *outcome, c caseT, pol *refcodec.Policy, ck, sk *keys.Pair, frames []netx.Frame) {
 	tag := "d1"
-	o.class("%s/%s/%s", tag, pol.Name, c.modeName())
-	o.class("%s/keys=c%d/s%d", tag, c.ClientBits, c.ServerBits)
-	if c.ClientChain || c.ServerChain {
-		o.class("%s/cert-chain", tag)
-	}
+	channelClasses(o, tag, pol, c)
 	var clientKeys, serverKeys *refcodec.Keys
 	var clientNonce, serverNonce []byte
 	var channelID, tokenID uint32
@@ -794,12 +836,24 @@ func verifyCapture(o *outcome, c caseT, pol *refcodec.Policy, ck, sk *keys.Pair,
 func TestWire(t *testing.T) {
 	rapid.Check(t, func(t *rapid.T) {
 		c := genChannel(t, "wire")
-		judge(t, "TestWire", c, runWire(c))
+		judge(t, "TestWire", c, journaled("TestWire", c, runWire))
 	})
 }
 
 // ---------------------------------------------------------------------------
 // form 3: reference client -> gopcua server channel
+
+// refMaxBody is the largest chunk body the reference may send to a receiver
+// with the given buffer. A sender that pads a whole block when the plaintext is
+// already aligned (FullPad) always writes at least one Padding byte, so its
+// maximal body is one byte smaller.
+func refMaxBody(pol *refcodec.Policy, c caseT, buf int) int {
+	m := refcodec.SymMaxBody(pol, c.mode(), buf)
+	if c.FullPad && c.Encrypt {
+		m--
+	}
+	return m
+}
 
 // splitSizes turns the drawn split into concrete body sizes for a body of n
 // bytes and a maximal chunk body of maxBody bytes; the final chunk (not listed)
@@ -829,7 +883,14 @@ func splitSizes(split []int, n, maxBody int) []int {
 
 func recvWithTimeout(srv *uasc.SecureChannel, d time.Duration) *uasc.MessageBody {
 	ch := make(chan *uasc.MessageBody, 1)
-	go func() { ch <- srv.Receive(context.Background()) }()
+	go func() {
+		defer func() {
+			if r := recover(); r != nil {
+				ch <- &uasc.MessageBody{Err: fmt.Errorf("panic in Receive: %v", r)}
+			}
+		}()
+		ch <- srv.Receive(context.Background())
+	}()
 	select {
 	case m := <-ch:
 		return m
@@ -895,14 +956,7 @@ func runRefClient(c caseT) (o outcome) {
 		o.infra = err
 		return
 	}
-	o.class("%s/%s/%s", tag, pol.Name, c.modeName())
-	o.class("%s/keys=c%d/s%d", tag, c.ClientBits, c.ServerBits)
-	if c.ClientChain || c.ServerChain {
-		o.class("%s/cert-chain", tag)
-	}
-	if c.FullPad {
-		o.class("%s/ref-pads-full-block-when-aligned", tag)
-	}
+	channelClasses(&o, tag, pol, c)
 
 	// ---- OPN
 	reqID, seq := c.FirstReq, c.FirstSeq
@@ -939,7 +993,7 @@ func runRefClient(c caseT) (o outcome) {
 	}
 
 	// ---- MSG
-	refMax := refcodec.SymMaxBody(pol, c.mode(), int(ack.ReceiveBufferSize))
+	refMax := refMaxBody(pol, c, int(ack.ReceiveBufferSize))
 	gopcuaMax := refcodec.SymMaxBody(pol, c.mode(), int(c.SendBuf))
 	for i, m := range c.Msgs {
 		reqID++
@@ -961,7 +1015,11 @@ func runRefClient(c caseT) (o outcome) {
 			o.class("%s/ref-msg=single-chunk", tag)
 		}
 		for _, f := range sent {
-			if len(f) == refcodec.SymChunkSize(pol, c.mode(), refMax) {
+			if len(f) > int(ack.ReceiveBufferSize) {
+				o.infra = fmt.Errorf("harness: reference built a %d byte chunk for a %d byte receive buffer", len(f), ack.ReceiveBufferSize)
+				return
+			}
+			if len(f) > int(ack.ReceiveBufferSize)-16 {
 				o.class("%s/ref-chunk=maximal", tag)
 			}
 		}
@@ -1024,7 +1082,7 @@ func runRefClient(c caseT) (o outcome) {
 func TestRefClient(t *testing.T) {
 	rapid.Check(t, func(t *rapid.T) {
 		c := genChannel(t, "refclient")
-		judge(t, "TestRefClient", c, runRefClient(c))
+		judge(t, "TestRefClient", c, journaled("TestRefClient", c, runRefClient))
 	})
 }
 
@@ -1043,15 +1101,8 @@ func runRefServer(c caseT) (o outcome) {
 	}
 	defer ln.Close()
 	ep := "opc.tcp://" + ln.Addr().String()
-	o.class("%s/%s/%s", tag, pol.Name, c.modeName())
-	o.class("%s/keys=c%d/s%d", tag, c.ClientBits, c.ServerBits)
-	if c.ClientChain || c.ServerChain {
-		o.class("%s/cert-chain", tag)
-	}
-	if c.FullPad {
-		o.class("%s/ref-pads-full-block-when-aligned", tag)
-	}
-	refMax := refcodec.SymMaxBody(pol, c.mode(), int(c.RecvBuf))
+	channelClasses(&o, tag, pol, c)
+	refMax := refMaxBody(pol, c, int(c.RecvBuf))
 	gopcuaMax := refcodec.SymMaxBody(pol, c.mode(), int(c.SendBuf))
 
 	// the reference server's script; its verdict comes back through srvDone
@@ -1148,7 +1199,11 @@ func runRefServer(c caseT) (o outcome) {
 				so.class("%s/ref-msg=single-chunk", tag)
 			}
 			for _, f := range sent {
-				if len(f) == refcodec.SymChunkSize(pol, c.mode(), refMax) {
+				if len(f) > int(c.RecvBuf) {
+					so.infra = fmt.Errorf("harness: reference built a %d byte chunk for a %d byte receive buffer", len(f), c.RecvBuf)
+					return
+				}
+				if len(f) > int(c.RecvBuf)-16 {
 					so.class("%s/ref-chunk=maximal", tag)
 				}
 			}
@@ -1244,7 +1299,7 @@ func runRefServer(c caseT) (o outcome) {
 func TestRefServer(t *testing.T) {
 	rapid.Check(t, func(t *rapid.T) {
 		c := genChannel(t, "refserver")
-		judge(t, "TestRefServer", c, runRefServer(c))
+		judge(t, "TestRefServer", c, journaled("TestRefServer", c, runRefServer))
 	})
 }
 
